@@ -50,7 +50,7 @@ theorem insert_ids_mem (st : Store) (x : Stream) : ∀ p ∈ (st.insert x).1.ids
     · right; simpa using h
 
 theorem DF.unlink (s : Streams) (id : Nat) : DF s { s with store := s.store.unlink id } :=
-  ⟨CD.refl _, rfl, swapRemove_subset _ _, fun _ h => h, fun _ x' h => ⟨x', h, SameD.refl _⟩, ⟨rfl, rfl⟩, fun _ _ => rfl⟩
+  ⟨CD.refl _, rfl, swapRemove_subset _ _, fun _ h => h, fun _ x' h => ⟨x', h, SameD.refl _⟩, ⟨rfl, rfl⟩, fun _ _ => rfl, NextOK.refl _ _⟩
 
 -- ===================================================================== insertion and removal
 
@@ -71,7 +71,7 @@ theorem Inv2.insert {s : Streams} {sv : Bool} {E : Nat → Prop} (hA : KeysOK s)
     rcases insert_get?_cases s.store st k with e | ⟨_, e, e2⟩
     · left; rw [e] at hx; exact hx
     · right; rw [e2] at hx; cases hx; exact ⟨e, rfl⟩
-  refine ⟨hi.role, ?_, ?_, ?_, ?_, ?_⟩
+  refine ⟨hi.role, ?_, ?_, ?_, ?_, ?_, hi.next⟩
   · intro k hk
     have := hi.p1 k hk
     refine ⟨Nat.lt_succ_of_lt this.1, ?_⟩
@@ -109,7 +109,7 @@ theorem Inv2.remove {s : Streams} {sv : Bool} {E : Nat → Prop} (hA : KeysOK s)
     (hg : ∀ st, s.store.get? k = some st → st.isCounted = false) :
     Inv2 sv E { s with store := s.store.remove k, recvBufferLeaked := n } := by
   have hde : DE (fun _ => False) s { s with store := s.store.remove k, recvBufferLeaked := n } := by
-    refine ⟨CE.refl _, rfl, fun _ h => h, fun _ h => h, ?_⟩
+    refine ⟨CE.refl _, rfl, fun _ h => h, fun _ h => h, ?_, NextOK.refl _ _⟩
     intro j x' hx'
     have hx'' : (s.store.remove k).get? j = some x' := hx'
     by_cases hjk : j = k
@@ -140,7 +140,8 @@ theorem Inv2.queuePP {s : Streams} {sv : Bool} {E : Nat → Prop} (hA : KeysOK s
     cases h
     rw [← hi.role]; exact hl
   · intro herr
-    rw [modStream_counts2, cntP_modStream_same (sendCounted sv) hA k _ (fun _ => rfl) (fun _ => rfl)]
+    rw [modStream_counts2, cntP_modStream_same (sendCounted sv) hA k
+      (fun st => { st with pendingSend := st.pendingSend ++ [.pushPromise pk pid fields] }) (fun _ => rfl) (fun _ => rfl)]
     exact hi.dir (by unfold ErrOK at herr ⊢; rw [modStream_counts2] at herr; exact herr)
 
 theorem stream_pendingSend_live {s : Streams} {k : Nat} {f : SFrame} {l : List SFrame} (h : (s.stream k).pendingSend = f :: l) :
@@ -196,15 +197,13 @@ theorem Inv2.ppAct {s : Streams} {sv : Bool} {E : Nat → Prop} (hA : KeysOK s) 
       · rw [hys, isLocalInit_eq, hi2.role]; exact hloc2 y hy
       · -- a dangling key: `modStream` panics
         exfalso
+        have hq : (s2.stream pushed).isQueued .pendingOpen = false := by
+          unfold Streams.stream; rw [hn]; rfl
         unfold Streams.qPush at hp
-        split at hp
-        · next hq =>
-          unfold Streams.stream at hq
-          rw [hn] at hq
-          cases hq
-        · rw [setQ_panicked] at hp
-          obtain ⟨_, y, hy⟩ := modStream_noPanic hp
-          rw [hn] at hy; cases hy
+        simp only [hq, Bool.false_eq_true, if_false] at hp
+        rw [setQ_panicked] at hp
+        obtain ⟨_, y, hy⟩ := modStream_noPanic hp
+        rw [hn] at hy; cases hy
   · simp only [hne] at hp ⊢
     exact hi2
 
